@@ -712,6 +712,7 @@ class XrPlugin:
                         raise Unsupported("Dataset[name] = list of non-numbers")
                     cells[(j,)] = x
                 o.fields["coords"][k] = CArr((len(vv),), cells)
+                o.fields.setdefault("index_from_list", set()).add(k)
                 o.fields.setdefault("writes", []).append(k)
                 return True
             o.fields["vars"][k] = v
@@ -719,6 +720,15 @@ class XrPlugin:
             if is_xa(vv):
                 # the variable brings its dimension coordinates along (existing coordinates of the dataset are kept)
                 for ck, cv in vv.fields["coords"].items():
+                    if ck in o.fields.get("index_from_list", ()):
+                        # xarray aligns an assigned variable to the dataset's existing index (re-ordering / NaN-filling it):
+                        # only the case in which nothing is re-aligned - identical coordinate values - is modelled
+                        mine = o.fields["coords"][ck]
+                        same = isinstance(cv, CArr) and cv.shape == mine.shape and all(
+                            (cv.data[c] is mine.data[c]) or (is_sym(cv.data[c]) and is_sym(mine.data[c]) and cv.data[c].eq(mine.data[c]))
+                            or (not is_sym(cv.data[c]) and not is_sym(mine.data[c]) and cv.data[c] == mine.data[c]) for c in mine.data)
+                        if not same:
+                            raise Unsupported(f"Dataset[name] = DataArray whose {ck} coordinate is not identical to the dataset's index (alignment not modelled)")
                     o.fields["coords"].setdefault(ck, cv)
             return True
         return NotImplemented
